@@ -93,6 +93,28 @@ func newUniverse(nOnce int) *Universe {
 	return u
 }
 
+// settleGoroutines waits, bounded, until the goroutine count is back at n: goroutines that a
+// cancellation started in the code under test get the chance to finish.
+func settleGoroutines(n int) {
+	for i := 0; i < 200; i++ {
+		runtime.Gosched()
+		if i >= 2 && runtime.NumGoroutine() <= n {
+			return
+		}
+		if i >= 20 {
+			time.Sleep(20 * time.Microsecond)
+		}
+	}
+}
+
+// waitCancelAftermath is for cancellations issued by the scheduler itself.
+func waitCancelAftermath() {
+	for i := 0; i < 40; i++ {
+		runtime.Gosched()
+	}
+	time.Sleep(200 * time.Microsecond)
+}
+
 // lockAware tells the lock shim about the kernel: a task that waits for a lock of the code
 // under test is neither running nor parked, and the unlocker makes it running again.
 func lockAware(k *kernel.Kernel) func() {
@@ -195,15 +217,7 @@ func (e *Env) point(kind, key string) bool {
 		before := runtime.NumGoroutine()
 		e.Cancel()
 		e.Cancelled = true
-		for n := 0; n < 200; n++ {
-			runtime.Gosched()
-			if n >= 2 && runtime.NumGoroutine() <= before {
-				break
-			}
-			if n >= 20 {
-				time.Sleep(20 * time.Microsecond)
-			}
-		}
+		settleGoroutines(before)
 		if e.Hook != nil {
 			e.Hook("cancelled", key)
 		}
@@ -325,6 +339,17 @@ func hwClear(inner templ.Component) templ.Component {
 func hwFlush(body templ.Component) templ.Component {
 	return templ.ComponentFunc(func(ctx context.Context, w io.Writer) error {
 		return templ.Flush().Render(templ.WithChildren(ctx, body), struct{ io.Writer }{w})
+	})
+}
+
+// hwTwice is a hand-written layer that renders inner twice with the context it was given (a
+// page rendered once for its ETag and once for the response, a preview next to the result).
+func hwTwice(inner templ.Component) templ.Component {
+	return templ.ComponentFunc(func(ctx context.Context, w io.Writer) error {
+		if err := inner.Render(ctx, w); err != nil {
+			return err
+		}
+		return inner.Render(ctx, w)
 	})
 }
 
@@ -477,6 +502,8 @@ func (e *Env) Build(n *Node) templ.Component {
 		return e.buildShape(n)
 	case "hwflush":
 		return hwFlush(e.kid(n, 0))
+	case "hwtwice":
+		return hwTwice(e.kid(n, 0))
 	}
 	panic("unknown node kind " + n.K)
 }
